@@ -48,7 +48,8 @@ def opQuery (quirks : String) (text bind : Str) (exprs : List Str) : String :=
        let d := { d with negZeroQuirk := quirks.contains 'z' }
        let env : XPath.Env := ⟨d, parseBindings bind⟩
        let outs := exprs.map fun ex =>
-         match XPath.query env ex with
+         -- quirk switch g: parse with the REVIEWED grammar instead of the one translated from the current source
+         match (if quirks.contains 'g' then XPath.queryRef env ex else XPath.query env ex) with
          | .ok v => showValue d v
          | .error .syntax => "err:syntax"
          | .error .remain => "err:remain"
